@@ -145,7 +145,10 @@ func NewEngine(p *Program, pkgPath, harness string, opts Options) (*Engine, erro
 			}
 			return false
 		},
-		"internal/bytealg.MaxLen": func(i *interpreter) value { return 64 },
+		// CI is realised natively by CI=true alone (a vendor-neutral variable): no vendor name, no PR
+		"github.com/gkampitakis/ciinfo.Name": func(i *interpreter) value { return "" },
+		"github.com/gkampitakis/ciinfo.IsPr": func(i *interpreter) value { return false },
+		"internal/bytealg.MaxLen":            func(i *interpreter) value { return 64 },
 	}
 	if e.Opts.MaxSteps == 0 {
 		e.Opts.MaxSteps = 20_000_000
